@@ -34,7 +34,7 @@ POOL = [
     ':current(p)', ':host(div)', ':host-context(p)',
     ':--hdr', ':--in', 'div :--hdr', ':not(:--in)',
     'input:not(:disabled):not([type=hidden])', 'form :default:not(:checked)', ':is(:enabled, :disabled)', 'iframe p', 'iframe *',
-    'option:checked', 'fieldset:disabled input', ':not(:dir(ltr))', ':not(:defined)', ':not(:lang(en))', ':not(:checked, :default)',
+    'option:checked', 'fieldset:disabled input', '#before:lang(en)', '#inner:lang(en)', '#after:lang(en)', '#inner', '#o p', '#o em', 'iframe em', ':not(:dir(ltr))', ':not(:defined)', ':not(:lang(en))', ':not(:checked, :default)',
 ]
 CUSTOM = {':--hdr': 'h1, h2', ':--in': 'input:not([type=hidden])'}
 MAPS = {
@@ -76,7 +76,7 @@ def pairs(tier, P):
         for j in range(n):
             if tier == 'quick':
                 # at least one HTML-only / state / namespaced / custom member, thinned to every 3rd partner
-                if not (special(P[i]) and (j % 2 == i % 2)):
+                if not (special(P[i]) and (j % 3 == i % 3)):
                     continue
             out.append((i, j))
     return out
@@ -88,7 +88,7 @@ def doc_list(tier):
     if tier == 'quick':
         return [(n, k) for n in names for k in kinds if (n, k) in {
             ('forms', 'html.parser'), ('forms', 'xhtml'), ('links', 'html5lib'), ('links', 'xml'), ('iframe', 'html.parser'),
-            ('foreign', 'html5lib'), ('foreign', 'xhtml'), ('struct', 'lxml')}]
+            ('foreign', 'html5lib'), ('foreign', 'xhtml'), ('struct', 'lxml'), ('iframe-meta', 'html.parser')}]
     return [(n, k) for n in names for k in kinds]
 
 
